@@ -166,8 +166,9 @@ class HTTP(BaseComponent):
             self._mark_closing(sock)
         self.fire(write(sock, b'%s%s' % (bytes(res), bytes(headers))))
 
-        if req.method == 'HEAD':
-            # no body, but the exchange ends here like any other
+        if req.method == 'HEAD' or res.status < 200 or res.status in (204, 304):
+            # no body (RFC 7230 3.3.3: whatever the handler left there),
+            # but the exchange ends here like any other
             if res.stream and res.body and hasattr(res.body, 'close'):
                 res.body.close()
             if res.close:
